@@ -14,6 +14,7 @@ func main() {
 	pool.Register("seqmc", worker)
 	pool.Register("c04", c04Worker)
 	pool.Register("c03pipe", pipeWorker)
+	pool.Register("c12tree", treeWorker)
 	pool.WorkerMain()
 	if len(os.Args) < 2 {
 		fmt.Fprintln(os.Stderr, "usage: seqmc <property> | seqmc replay <file>")
